@@ -163,7 +163,7 @@ def stepOracle (st : St) (ws : List String) (obs : Json) : St × List String :=
     let activated := ((caCmds obs).filter (·.1 == h)).flatMap fun (_, c) =>
       (jarr (jget c "events")).filterMap fun e =>
         if evType e == "key_roll_activated" then some (jstr (jget e "resource_class_name")) else none
-    caPreds (jpath obs ["cas", h]) (((objs.find? (·.1 == h)).map (·.2)).getD []) activated
+    caPreds (jpath obs ["cas", h]) (jpath st.prev ["cas", h]) (((objs.find? (·.1 == h)).map (·.2)).getD []) activated
   -- server content = objects whenever no sync is outstanding
   let syncEvents := ["roas_updated", "aspa_objects_updated", "child_certificates_updated",
     "bgp_sec_certificates_updated", "child_key_revoked", "key_pending_to_new", "key_pending_to_active",
